@@ -172,13 +172,13 @@ func checkC12(r *Result, rng *rand.Rand, thorough bool) {
 		fu, fg uint32
 	}
 	rels := []rel{
-		{1000, 100, "-", 1000, 100},     // owner (and group)
-		{1000, 100, "-", 1000, 200},     // owner only
-		{1001, 100, "-", 1000, 100},     // primary group
+		{1000, 100, "-", 1000, 100},       // owner (and group)
+		{1000, 100, "-", 1000, 200},       // owner only
+		{1001, 100, "-", 1000, 100},       // primary group
 		{1001, 101, "7,100,9", 1000, 100}, // auxiliary group
-		{1001, 101, "7,9", 1000, 100},   // other
-		{0, 0, "-", 1000, 100},          // root
-		{1000, 100, "200", 0, 0},        // file owned by root, caller other
+		{1001, 101, "7,9", 1000, 100},     // other
+		{0, 0, "-", 1000, 100},            // root
+		{1000, 100, "200", 0, 0},          // file owned by root, caller other
 	}
 	var ops []string
 	if thorough {
